@@ -155,6 +155,67 @@ theorem nothing_summary_spec {K : Type} [Field K] [LinearOrder K] [IsStrictOrder
         exact le_trans hmb.2 this
       · simp [Ext.isInf]
 
+/-- **median_samples_above_spec** — the size named by the "need >= N samples" warning
+(`medianSamplesAbove`, F25): it exceeds the size at hand, lies in 2..50, has a finite interval
+according to the external QuantileCI data (0 < LoOrder, HiOrder ≤ N), and no smaller size above the
+one at hand (and ≥ 2) has; "> 50" is answered only when no such size exists in the table. -/
+theorem median_samples_above_spec (tab : List (Nat × Nat)) (have_ : Nat) :
+    (∀ n, Nothing.medianSamplesAbove tab have_ = (.ge, n) →
+      have_ < n ∧ 2 ≤ n ∧ n ≤ 50 ∧
+      (∃ lo hi, (tab.take 49)[n - 2]? = some (lo, hi) ∧ 0 < lo ∧ hi ≤ n) ∧
+      (∀ m lo hi, have_ < m → 2 ≤ m → m < n → (tab.take 49)[m - 2]? = some (lo, hi) → ¬ (0 < lo ∧ hi ≤ m))) ∧
+    (∀ n, Nothing.medianSamplesAbove tab have_ = (.gt, n) → n = 50 ∧
+      ∀ m lo hi, have_ < m → 2 ≤ m → (tab.take 49)[m - 2]? = some (lo, hi) → ¬ (0 < lo ∧ hi ≤ m)) := by
+  unfold Nothing.medianSamplesAbove
+  constructor
+  · intro n h
+    split at h
+    · rename_i e he
+      simp only [Prod.mk.injEq, true_and] at h
+      subst h
+      obtain ⟨hp, hmin⟩ := List.find?_eq_some_iff_getElem.mp he
+      obtain ⟨i, hi, hget, hbefore⟩ := hmin
+      simp only [Bool.and_eq_true, decide_eq_true_eq] at hp
+      have hz := List.getElem_zipIdx (l := tab.take 49) (j := 2) (i := i) hi
+      rw [hget] at hz
+      have hi' : i < (tab.take 49).length := by simpa using hi
+      have hlen : (tab.take 49).length ≤ 49 := by simp
+      have he2 : e.2 = 2 + i := by rw [hz]
+      have he1 : e.1 = (tab.take 49)[i] := by rw [hz]
+      refine ⟨hp.1.1, by omega, by omega, ⟨e.1.1, e.1.2, ?_, hp.1.2, hp.2⟩, ?_⟩
+      · have : e.2 - 2 = i := by omega
+        rw [this, List.getElem?_eq_getElem hi', ← he1]
+      · intro m lo hi2 hm1 hm2 hm3 hget2 hfin
+        have hj : m - 2 < i := by omega
+        have hjl : m - 2 < ((tab.take 49).zipIdx 2).length := by rw [List.length_zipIdx]; omega
+        have := hbefore (m - 2) hj
+        have hz2 := List.getElem_zipIdx (l := tab.take 49) (j := 2) (i := m - 2) hjl
+        rw [hz2] at this
+        have hv : (tab.take 49)[m - 2] = (lo, hi2) := by
+          have := List.getElem?_eq_some_iff.mp hget2
+          obtain ⟨_, h⟩ := this; exact h
+        simp only [hv, Bool.and_eq_true, decide_eq_true_eq, not_and, Bool.not_eq_true] at this
+        have e2 : 2 + (m - 2) = m := by omega
+        rw [e2] at this
+        simp only [Bool.not_eq_true', decide_eq_false_iff_not] at this
+        simp at this
+        exact absurd hfin.2 (by have := this hm1 hfin.1; omega)
+    · cases h
+  · intro n h
+    split at h
+    · cases h
+    · rename_i hnone
+      simp only [Prod.mk.injEq, true_and] at h
+      refine ⟨h.symm, ?_⟩
+      intro m lo hi2 hm1 hm2 hget2 hfin
+      have hall := List.find?_eq_none.mp hnone
+      obtain ⟨hlt, hv⟩ := List.getElem?_eq_some_iff.mp hget2
+      have hmem : ((lo, hi2), m) ∈ (tab.take 49).zipIdx 2 := by
+        rw [List.mk_mem_zipIdx_iff_le_and_getElem?_sub]
+        exact ⟨hm2, hget2⟩
+      have := hall _ hmem
+      simp [hm1, hfin.1, hfin.2] at this
+
 /-! ## the significance threshold is carried -/
 
 /-- **alpha_carried** — both models that perform a test return the threshold the FIRST sample was
